@@ -65,15 +65,15 @@ CHECKS.update({
 
 CHECKS.update({
  "C18": dict(cat="fault_enumeration", tech="process monitor over real CLI runs under enumerated faults: exit status, stdout, stderr, tree snapshot before/after (outputs pre-seeded with sentinels), CPU rlimit; strace syscall-fault injection; in-process DoFile+Sources under recover",
-   text="Every fault kind (unknown type, $ref to missing definition/file/unsupported scheme/non-definition pointer/missing definition in another file/unparsable file, empty enum, non-primitive enum values, integer enum with string, null subschema) is injected at sampled property/items/definition positions at any depth (also inside allOf/anyOf branches, JSON and YAML, file and stdout output) of random valid schemas whose base run is accepted; plus byte-level faults, malformed flags, bad files, strace-injected write errors and the in-process twin. A must-fail run has to exit non-zero with a diagnostic, print nothing on stdout and create/modify/remove nothing; no run may panic, die by signal or hit the CPU limit.", ref="§4 C18",
+   text="Every fault kind (unknown type, $ref to missing definition/file/unsupported scheme/non-definition pointer/missing definition in another file/unparsable file, empty enum, non-primitive enum values, integer enum with string, null subschema) is injected at sampled property/items/definition positions at any depth (and, enumerated, 1-48 levels below the root along property / items / map-value / alternating chains, from the root, a definition and composition members) (also inside allOf/anyOf branches, JSON and YAML, file and stdout output) of random valid schemas whose base run is accepted; plus byte-level faults, malformed flags, bad files, strace-injected write errors and the in-process twin. A must-fail run has to exit non-zero with a diagnostic, print nothing on stdout and create/modify/remove nothing; no run may panic, die by signal or hit the CPU limit.", ref="§4 C18",
    note="Trusted base: the tree snapshot (SHA-256), os/exec process state, strace. Faults are sampled per base schema, not exhaustively enumerated over all positions; 'must fail' for byte-level faults only when an independent decoder cannot decode a first JSON value. Runs as root, so permission faults are replaced by directory/symlink inputs and strace EACCES."),
 })
 
 CHECKS.update({
  "C10": dict(cat="exploration", tech="relational runtime monitor: reference form (same-file definitions, or chains of sibling files over directory layouts) vs inlined twin, both compiled and executed on the same documents and judged against the reference model; go/ast type-sharing census; recursion depth sweep",
-   text="Held on every execution observed: ref-heavy schemas in REF form (definitions in the file, or factored into chains of .json/.yaml files with ./, file:// and extension-less spellings, run from other working directories or by absolute path) and as INLINED twin give the model's verdict and decoded value on the same valid and single-fault documents; a REF form refused while its twin is generated is reported; referrers of one definition share one Go type; list/tree/mutual recursion generates and decodes documents 1..64 deep with a fault only at the deepest level.", ref="§4 C10"),
+   text="Held on every execution observed: ref-heavy schemas in REF form (definitions in the file, or factored into chains of .json/.yaml files with ./, file:// and extension-less spellings, run from other working directories or by absolute path) and as INLINED twin give the model's verdict and decoded value on the same valid and single-fault documents; a REF form refused while its twin is generated is reported; referrers of one definition share one Go type; list/tree/mutual recursion generates and decodes documents 1..64 deep with a fault only at the deepest level; file cycles over definitions and one file reached under several spellings of its path (with decoy files in the working directory) resolve every relative reference against the document it is written in and yield one Go type per file.", ref="§4 C10"),
  "C20": dict(cat="exploration", tech="runtime monitor over real CLI runs inside a Go module: file/package/declaration census (go/ast), go build of all emitted packages, and history relations (argument permutations, unrelated extra files) compared declaration by declaration",
-   text="Held on every run observed: sets of 1-4 schema files with cross references x id/package/output/root-type mappings; every schema's root type and definitions are declared exactly once in the mapped file and package, the emitted module builds, and every permutation of the arguments as well as adding unrelated schema files (front/middle/end) leaves every original declaration unchanged.", ref="§4 C20",
+   text="Held on every run observed: sets of 1-4 schema files with cross references x id/package/output/root-type mappings; every schema's root type and definitions are declared exactly once in the mapped file and package, the emitted module builds, and every permutation of the arguments as well as adding unrelated schema files (front/middle/end) leaves every original declaration unchanged; several files under one $id, several mapped ids in one output and type-less referenced roots are declared once (no numbered copies).", ref="§4 C20",
    note="Trusted base: go/parser, go/printer, go build. Unrelated and original schemas use disjoint type names (same-package name collisions necessarily give order-dependent suffixes, DESIGN §3.11); a package mapping always comes with an output mapping; package graphs are kept acyclic (Go forbids import cycles). Files are compared declaration by declaration: the order of declarations inside a file shared by several schemas follows processing order and is not part of the statement."),
 })
 
